@@ -291,6 +291,35 @@ theorem occ_images (inp : FindInput) (hG : OrthoGuards inp) (g : Nat → Nat) (n
       (hocc.idx_lt k hk) (n k) _ (distSq_nonneg' _ _) (patMax_ge inp k 0 hk hG.pat) (hocc.dist k 0 (by omega) hk)
     exact ⟨hw.2.2, hw.1⟩
 
+/-- what completeness of the search needs from the image expansion and the two windows: every atom of an
+    occurrence is one of the 27 images, lies in the cubic window of the start atom and passes the near test -/
+structure WindowComplete (inp : FindInput) : Prop where
+  pat : 0 < inp.ppos.length
+  win : ∀ (g : Nat → Nat) (n : Nat → Int × Int × Int), DistOccurrence inp g n → ∀ k, k < inp.ppos.length →
+    n k ∈ searchMultipliers ∧
+    inCube (imagePos inp (g 0) (n 0)) (imagePos inp (g k) (n k)) (patMax inp) inp.atol = true ∧
+    nearTest inp.cell (patMax inp) inp.atol (imagePos inp (g k) (n k)) = true
+
+theorem windowComplete_ortho (inp : FindInput) (hG : OrthoGuards inp) : WindowComplete inp where
+  pat := hG.pat
+  win := fun g n hocc k hk => by
+    have him := occ_images inp hG g n hocc k hk
+    refine ⟨him.2, him.1, ?_⟩
+    have h0 : imagePos inp (g 0) (n 0) = inp.pos.getD (g 0) Vec3.zero := by rw [hocc.home]; exact imagePos_home inp (g 0)
+    have hin0 := hG.inside (inp.pos.getD (g 0) Vec3.zero) (getD_mem_of_lt _ _ _ (hocc.idx_lt 0 hG.pat))
+    unfold nearTest
+    rw [hG.ortho]
+    simp only [if_true]
+    have hc := him.1
+    rw [h0] at hc
+    exact nearOrtho_of_inCube inp.cell _ _ _ _ hc hin0
+
+theorem occ_imagesW (inp : FindInput) (hW : WindowComplete inp) (g : Nat → Nat) (n : Nat → Int × Int × Int)
+    (hocc : DistOccurrence inp g n) (k : Nat) (hk : k < inp.ppos.length) :
+    inCube (imagePos inp (g 0) (n 0)) (imagePos inp (g k) (n k)) (patMax inp) inp.atol = true ∧
+    n k ∈ searchMultipliers :=
+  ⟨(hW.win g n hocc k hk).2.1, (hW.win g n hocc k hk).1⟩
+
 theorem nearOf_eq (inp : FindInput) :
     nearOf inp = (List.range (allPositions inp.cell inp.pos).length).filter
       (fun i => nearTest inp.cell (patMax inp) inp.atol ((allPositions inp.cell inp.pos).getD i Vec3.zero)) := rfl
@@ -299,31 +328,24 @@ theorem nearOf_eq (inp : FindInput) :
 def nearSlot (inp : FindInput) (g : Nat) (n : Int × Int × Int) : Nat := (nearOf inp).idxOf (imageIndex inp g n)
 
 /-- every atom of an occurrence is in the near list, at a slot that points back to its image -/
-theorem occ_near (inp : FindInput) (hG : OrthoGuards inp) (g : Nat → Nat) (n : Nat → Int × Int × Int)
+theorem occ_near (inp : FindInput) (hW : WindowComplete inp) (g : Nat → Nat) (n : Nat → Int × Int × Int)
     (hocc : DistOccurrence inp g n) (k : Nat) (hk : k < inp.ppos.length) :
     nearSlot inp (g k) (n k) < (nearOf inp).length ∧
     (nearOf inp).getD (nearSlot inp (g k) (n k)) 0 = imageIndex inp (g k) (n k) ∧
     nearSlot inp (g k) (n k) ≤ imageIndex inp (g k) (n k) := by
-  have him := occ_images inp hG g n hocc k hk
+  have him := occ_imagesW inp hW g n hocc k hk
   have hidx := imageIndex_spec inp (g k) (n k) (hocc.idx_lt k hk) him.2
-  have h0 : imagePos inp (g 0) (n 0) = inp.pos.getD (g 0) Vec3.zero := by rw [hocc.home]; exact imagePos_home inp (g 0)
-  have hin0 := hG.inside (inp.pos.getD (g 0) Vec3.zero) (getD_mem_of_lt _ _ _ (hocc.idx_lt 0 hG.pat))
   have hnear : nearTest inp.cell (patMax inp) inp.atol
       ((allPositions inp.cell inp.pos).getD (imageIndex inp (g k) (n k)) Vec3.zero) = true := by
     rw [hidx.2.1]
-    unfold nearTest
-    rw [hG.ortho]
-    simp only [if_true]
-    have hc := him.1
-    rw [h0] at hc
-    exact nearOrtho_of_inCube inp.cell _ _ _ _ hc hin0
+    exact (hW.win g n hocc k hk).2.2
   unfold nearSlot
   rw [nearOf_eq]
   exact filter_range_idxOf _ _ _ hidx.1 hnear
 
-/-- **Completeness of the candidate enumeration and of the grouping** (orthorhombic cells, no hypothesis on the
-    oracle): the tuple of an occurrence is a member of a candidate group whose key is `sort g`. -/
-theorem occ_in_group (inp : FindInput) (hG : OrthoGuards inp) (g : Nat → Nat) (n : Nat → Int × Int × Int)
+/-- **Completeness of the candidate enumeration and of the grouping** (any cell whose windows are complete, no
+    hypothesis on the oracle): the tuple of an occurrence is a member of a candidate group whose key is `sort g`. -/
+theorem occ_in_group (inp : FindInput) (hW : WindowComplete inp) (g : Nat → Nat) (n : Nat → Int × Int × Int)
     (hocc : DistOccurrence inp g n) :
     ∃ p ∈ groupBy (tupleKey inp.pos.length) (candsAllOf inp),
       p.1 = occKey inp.ppos.length g ∧ occTuple inp g n ∈ p.2 := by
@@ -331,14 +353,14 @@ theorem occ_in_group (inp : FindInput) (hG : OrthoGuards inp) (g : Nat → Nat) 
   let tl : List Nat := (List.range L).map (fun k => nearSlot inp (g k) (n k))
   have htl : ∀ k, k < L → tl.getD k 0 = nearSlot inp (g k) (n k) := fun k hk => getD_range_map _ _ _ _ hk
   have hlen : tl.length = L := by simp [tl]
-  have hnear := occ_near inp hG g n hocc
+  have hnear := occ_near inp hW g n hocc
   have hNlen : (nearPosOf inp).length = (nearOf inp).length := by simp [nearPosOf]
   have hElen : (nearElemOf inp).length = (nearOf inp).length := by simp [nearElemOf]
   -- what the near list holds at the slots of the tuple
   have hNP : ∀ k, k < L → (nearPosOf inp).getD (tl.getD k 0) Vec3.zero = imagePos inp (g k) (n k) := by
     intro k hk
     have hn := hnear k hk
-    have him := occ_images inp hG g n hocc k hk
+    have him := occ_imagesW inp hW g n hocc k hk
     have hidx := imageIndex_spec inp (g k) (n k) (hocc.idx_lt k hk) him.2
     rw [htl k hk]
     unfold nearPosOf
@@ -346,7 +368,7 @@ theorem occ_in_group (inp : FindInput) (hG : OrthoGuards inp) (g : Nat → Nat) 
   have hNE : ∀ k, k < L → (nearElemOf inp).getD (tl.getD k 0) "" = inp.pelems.getD k "" := by
     intro k hk
     have hn := hnear k hk
-    have him := occ_images inp hG g n hocc k hk
+    have him := occ_imagesW inp hW g n hocc k hk
     have hidx := imageIndex_spec inp (g k) (n k) (hocc.idx_lt k hk) him.2
     rw [htl k hk]
     unfold nearElemOf
@@ -357,21 +379,21 @@ theorem occ_in_group (inp : FindInput) (hG : OrthoGuards inp) (g : Nat → Nat) 
   have hcand : tl ∈ candsOf inp := by
     unfold candsOf
     apply candidates_complete inp.ppos inp.pelems inp.atol (patMax inp) inp.pos.length (nearPosOf inp) (nearElemOf inp) tl
-      hG.pat hlen
-    · rw [htl 0 hG.pat]
-      have hn := hnear 0 hG.pat
-      have := hocc.idx_lt 0 hG.pat
+      hW.pat hlen
+    · rw [htl 0 hW.pat]
+      have hn := hnear 0 hW.pat
+      have := hocc.idx_lt 0 hW.pat
       rw [h0] at hn
       rw [hElen]
       exact Nat.lt_min.mpr ⟨by omega, hn.1⟩
-    · exact hNE 0 hG.pat
+    · exact hNE 0 hW.pat
     · intro i _ hi
       rw [hlen] at hi
       rw [htl i hi, hNlen]; exact (hnear i hi).1
     · intro i _ hi
       rw [hlen] at hi
-      rw [hNP 0 hG.pat, hNP i hi]
-      exact (occ_images inp hG g n hocc i hi).1
+      rw [hNP 0 hW.pat, hNP i hi]
+      exact (occ_imagesW inp hW g n hocc i hi).1
     · intro i _ hi
       rw [hlen] at hi
       exact hNE i hi
@@ -396,17 +418,17 @@ theorem occ_in_group (inp : FindInput) (hG : OrthoGuards inp) (g : Nat → Nat) 
     apply List.map_congr_left
     intro k hk
     have hk' := List.mem_range.mp hk
-    have him := occ_images inp hG g n hocc k hk'
+    have him := occ_imagesW inp hW g n hocc k hk'
     exact (imageIndex_spec inp (g k) (n k) (hocc.idx_lt k hk') him.2).2.2
   rcases groupBy_complete (tupleKey inp.pos.length) (candsAllOf inp) _ hmem with ⟨p, hp, hpk, hpm⟩
   exact ⟨p, hp, by rw [hpk, hkey], hpm⟩
 
 /-- **find_complete (partial: under `OracleAligns`).** -/
 theorem find_complete_of_aligned (inp : FindInput) (ax1 : Nat) (oracle : Nat → Nat → Quat)
-    (choose : Nat → List Nat → Nat) (hG : OrthoGuards inp) (g : Nat → Nat) (n : Nat → Int × Int × Int)
+    (choose : Nat → List Nat → Nat) (hW : WindowComplete inp) (g : Nat → Nat) (n : Nat → Int × Int × Int)
     (hocc : DistOccurrence inp g n) (hor : OracleAligns inp ax1 oracle (occTuple inp g n)) :
     occKey inp.ppos.length g ∈ (find inp ax1 oracle choose).map Match.key := by
-  rcases occ_in_group inp hG g n hocc with ⟨p, hp, hpk, hpm⟩
+  rcases occ_in_group inp hW g n hocc with ⟨p, hp, hpk, hpm⟩
   rcases List.getElem_of_mem hp with ⟨gi, hgi, hgp⟩
   rcases List.getElem_of_mem hpm with ⟨i, hi, hiT⟩
   have hgroup : (findGroups inp ax1 oracle).2[gi]? = some (mkGroup inp ax1 oracle (p, gi)) := by
